@@ -59,13 +59,179 @@ theorem getCols_present {cs : List Nat} {p : PState} (h : FreshOk cs p) {c : Nat
   rw [lookup_keys_eq cs h.keys h.allRes hc]
   rfl
 
-theorem flushHandles_ok_of_allResident {p : PState} (hp : p.phase = .fresh) (h : AllResident p.cols) :
-    flushHandles p = .ok { p with phase := .handlesRead } := by
-  unfold flushHandles
+theorem flushHandlesOld_ok_of_allResident {p : PState} (hp : p.phase = .fresh) (h : AllResident p.cols) :
+    flushHandlesOld p = .ok { p with phase := .handlesRead } := by
+  unfold flushHandlesOld
   simp only [hp, if_true]
   have : (p.cols.all fun kh => decide (kh.2 = Handle.resident)) = true := by
     simp only [List.all_eq_true, decide_eq_true_eq]
     exact h
   simp [this]
+
+/-! ### What a lookup can change: handles and the loaded flag only -/
+
+theorem getOrLoad_frame {p p' : PState} {c : Nat} {h : Handle} {b : Bool} (hr : getOrLoad p c h = .ok (p', b)) :
+    p'.phase = p.phase ∧ p'.ephemeral = p.ephemeral ∧ p'.fileCols = p.fileCols := by
+  cases h with
+  | empty => simp only [getOrLoad] at hr; injection hr with hr; injection hr with h1 _; subst h1; exact ⟨rfl, rfl, rfl⟩
+  | resident => simp only [getOrLoad] at hr; injection hr with hr; injection hr with h1 _; subst h1; exact ⟨rfl, rfl, rfl⟩
+  | nonresident =>
+    simp only [getOrLoad] at hr
+    split at hr
+    · cases hr
+    · split at hr
+      · cases hr
+      · split at hr <;> (injection hr with hr; injection hr with h1 _; subst h1; exact ⟨rfl, rfl, rfl⟩)
+
+theorem getCols_frame {p p' : PState} {c : Nat} {b : Bool} (hr : getCols p c = .ok (p', b)) :
+    p'.phase = p.phase ∧ p'.ephemeral = p.ephemeral ∧ p'.fileCols = p.fileCols := by
+  unfold getCols at hr
+  split at hr
+  · exact getOrLoad_frame hr
+  · split at hr
+    · exact getOrLoad_frame (p := { p with cols := setH c .empty p.cols }) hr
+    · split at hr
+      · cases hr
+      · split at hr
+        · exact getOrLoad_frame (p := { p with cols := setH c .empty p.cols }) hr
+        · exact getOrLoad_frame (p := { p with cols := setH c .nonresident p.cols }) hr
+
+theorem evict_frame (p : PState) (c : Nat) :
+    (evict p c).phase = p.phase ∧ (evict p c).ephemeral = p.ephemeral ∧ (evict p c).fileCols = p.fileCols := by
+  unfold evict
+  split
+  · split <;> exact ⟨rfl, rfl, rfl⟩
+  · exact ⟨rfl, rfl, rfl⟩
+
+/-- No action of anybody changes the set of columns a partition object was born with. -/
+theorem papply_fileCols {p p' : PState} {a : PAct} (h : papply p a = some (.ok p')) : p'.fileCols = p.fileCols := by
+  cases a with
+  | getCols c =>
+    simp only [papply, Option.some.injEq] at h
+    cases hg : getCols p c with
+    | error f => rw [hg] at h; cases h
+    | ok r =>
+      rw [hg] at h
+      obtain ⟨q, b⟩ := r
+      simp only [Except.map] at h
+      injection h with h; subst h
+      exact (getCols_frame hg).2.2
+  | flushHandles =>
+    simp only [papply] at h
+    split at h
+    · simp only [flushHandles, Option.some.injEq] at h
+      split at h <;> (injection h with h; subst h; rfl)
+    · cases h
+  | persist => simp only [papply] at h; split at h <;> first | (injection h with h; injection h with h; subst h; rfl) | cases h
+  | remove => simp only [papply] at h; split at h <;> first | (injection h with h; injection h with h; subst h; rfl) | cases h
+  | uncatalogue => simp only [papply] at h; split at h <;> first | (injection h with h; injection h with h; subst h; rfl) | cases h
+  | deleteFiles => simp only [papply] at h; split at h <;> first | (injection h with h; injection h with h; subst h; rfl) | cases h
+  | evict c =>
+    simp only [papply, Option.some.injEq] at h
+    injection h with h; subst h
+    exact (evict_frame p c).2.2
+
+theorem prun_fileCols {p p' : PState} {as : List PAct} (h : prun p as = .ok p') : p'.fileCols = p.fileCols := by
+  induction as generalizing p with
+  | nil => simp only [prun] at h; injection h with h; subst h; rfl
+  | cons a as ih =>
+    simp only [prun] at h
+    split at h
+    · exact ih h
+    · rename_i q hq; rw [ih h]; exact papply_fileCols hq
+    · cases h
+
+/-! ### Lookups that cannot fault -/
+
+def NoNonresident (cols : List (Nat × Handle)) : Prop := ∀ kh ∈ cols, kh.2 ≠ Handle.nonresident
+
+theorem lookup_mem {c : Nat} {cols : List (Nat × Handle)} {h : Handle} (hl : lookup c cols = some h) : (c, h) ∈ cols := by
+  induction cols with
+  | nil => simp [lookup] at hl
+  | cons kh rest ih =>
+    obtain ⟨k, x⟩ := kh
+    simp only [lookup] at hl
+    split at hl
+    · rename_i hk; injection hl with hl; subst hl; subst hk; exact List.mem_cons_self ..
+    · exact List.mem_cons_of_mem _ (ih hl)
+
+theorem mem_setH {c : Nat} {h : Handle} {cols : List (Nat × Handle)} {kh : Nat × Handle} (hm : kh ∈ setH c h cols) :
+    kh ∈ cols ∨ kh = (c, h) := by
+  induction cols with
+  | nil => simp [setH] at hm; exact Or.inr hm
+  | cons x rest ih =>
+    obtain ⟨k, y⟩ := x
+    simp only [setH] at hm
+    split at hm
+    · rename_i hk
+      cases hm with
+      | head => exact Or.inr (by rw [hk])
+      | tail _ h' => exact Or.inl (List.mem_cons_of_mem _ h')
+    · cases hm with
+      | head => exact Or.inl (List.mem_cons_self ..)
+      | tail _ h' =>
+        rcases ih h' with h'' | h''
+        · exact Or.inl (List.mem_cons_of_mem _ h'')
+        · exact Or.inr h''
+
+/-- An ephemeral partition (buffer view, or batch-born) none of whose columns has been evicted answers every lookup,
+    and stays that way. -/
+theorem getCols_ephemeral_ok {p : PState} (he : p.ephemeral = true) (hn : NoNonresident p.cols) (c : Nat) :
+    ∃ p' b, getCols p c = .ok (p', b) ∧ p'.ephemeral = true ∧ NoNonresident p'.cols ∧ p'.phase = p.phase := by
+  unfold getCols
+  cases hl : lookup c p.cols with
+  | some h =>
+    cases h with
+    | resident => exact ⟨p, true, rfl, he, hn, rfl⟩
+    | empty => exact ⟨p, false, rfl, he, hn, rfl⟩
+    | nonresident => exact absurd rfl (hn _ (lookup_mem hl))
+  | none =>
+    simp only [he, if_true]
+    refine ⟨_, false, rfl, rfl, ?_, rfl⟩
+    intro kh hkh
+    rcases mem_setH hkh with h | h
+    · exact hn kh h
+    · subst h; simp
+
+theorem getColsMany_ephemeral_ok {p : PState} (he : p.ephemeral = true) (hn : NoNonresident p.cols) (cs : List Nat) :
+    ∃ p', getColsMany p cs = .ok p' ∧ p'.phase = p.phase := by
+  induction cs generalizing p with
+  | nil => exact ⟨p, rfl, rfl⟩
+  | cons c cs ih =>
+    obtain ⟨q, b, hq, he', hn', hph⟩ := getCols_ephemeral_ok he hn c
+    obtain ⟨r, hr, hph'⟩ := ih he' hn'
+    exact ⟨r, by simp only [getColsMany, hq, hr], by rw [hph', hph]⟩
+
+theorem getOrLoad_catalogued_ok {p : PState} (h1 : p.phase.inCatalogue = true) (h2 : p.phase.filesExist = true)
+    (c : Nat) (h : Handle) : ∃ r, getOrLoad p c h = .ok r := by
+  cases h with
+  | resident => exact ⟨_, rfl⟩
+  | empty => exact ⟨_, rfl⟩
+  | nonresident =>
+    simp only [getOrLoad, h1, h2, Bool.not_true, Bool.false_eq_true, if_false]
+    split <;> exact ⟨_, rfl⟩
+
+/-- While the catalogue entry and the files of a partition exist every lookup succeeds. -/
+theorem getCols_catalogued_ok {p : PState} (h1 : p.phase.inCatalogue = true) (h2 : p.phase.filesExist = true) (c : Nat) :
+    ∃ r, getCols p c = .ok r := by
+  unfold getCols
+  split
+  · exact getOrLoad_catalogued_ok h1 h2 c _
+  · split
+    · exact ⟨_, rfl⟩
+    · simp only [h1, Bool.not_true, Bool.false_eq_true, if_false]
+      split
+      · exact ⟨_, rfl⟩
+      · exact getOrLoad_catalogued_ok (p := { p with cols := setH c .nonresident p.cols }) h1 h2 c _
+
+theorem getColsMany_catalogued_ok {p : PState} (h1 : p.phase.inCatalogue = true) (h2 : p.phase.filesExist = true)
+    (cs : List Nat) : ∃ p', getColsMany p cs = .ok p' := by
+  induction cs generalizing p with
+  | nil => exact ⟨p, rfl⟩
+  | cons c cs ih =>
+    obtain ⟨⟨q, b⟩, hq⟩ := getCols_catalogued_ok h1 h2 c
+    have hph := (getCols_frame hq).1
+    obtain ⟨r, hr⟩ := ih (p := q) (by rw [hph]; exact h1) (by rw [hph]; exact h2)
+    exact ⟨r, by simp only [getColsMany, hq, hr]⟩
 
 end LM.Conc.Cols
